@@ -228,5 +228,11 @@ def tracer_first(ctx, db):
                     bad = bad or ('a path that may leave the future pending charges the tracer %d times' % len(ch), tr)
                 elif (tr[ch[0]].get('args') or [{}])[0].get('path') not in (PTR, 'ctor(this->_ptr)'):
                     bad = bad or ('the tracer is not charged with this object\'s own state', tr)
+                else:
+                    # whatever (re)initialises the future's awaiter slot - get_promise() exchanges it, result_of / operator<< construct into it -
+                    # comes before the charge: a slot reset afterwards silently unsubscribes the tracer and its self-reference is never dropped
+                    init = all_indices(tr, lambda ev: ev.k == 'call' and norm(ev.get('callee') or '') in ('cocls::future::get_promise', 'cocls::future::result_of', 'cocls::future::operator<<'))
+                    if init and init[-1] > ch[0]:
+                        bad = bad or ('the tracer is charged before %s re-initialises the awaiter slot: the registration is wiped, the state keeps referencing itself and is never freed' % norm(tr[init[-1]].get('callee')).split('::')[-1], tr)
             ctx.ob(rid, f, f['key'], bad is None, '%s charges the tracer on every possibly-pending path' % f['nname'].split('::')[-1] + ('' if not bad else ' -- ' + bad[0]), desc=bad[0] if bad else None,
                    trace=fmt_trace(bad[1]) if bad and bad[1] else None)
